@@ -183,7 +183,9 @@ impl PartialEq for Record {
     fn eq(&self, other: &Self) -> bool {
         self.md5 == other.md5
             && self.ksize == other.ksize
-            && self.moltype == other.moltype
+            // the column is only ever observed through `moltype()`, which ignores letter case
+            // ("dna" in a manifest written elsewhere is the "DNA" this crate writes)
+            && self.moltype.eq_ignore_ascii_case(&other.moltype)
             && self.scaled == other.scaled
             && self.num == other.num
             && self.n_hashes == other.n_hashes
@@ -199,7 +201,7 @@ impl Hash for Record {
     fn hash<H: Hasher>(&self, state: &mut H) {
         self.md5.hash(state);
         self.ksize.hash(state);
-        self.moltype.hash(state);
+        self.moltype.to_ascii_lowercase().hash(state);
         self.scaled.hash(state);
         self.num.hash(state);
         self.n_hashes.hash(state);
